@@ -217,8 +217,9 @@ def run_property(prop, tier, seed, jobs, write_baseline, t_start):
         bound = P.get("fallback_bound", {}).get(qual, 3 if tier == "quick" else 4)
         u = {"kind": "unroll", "qual": qual, "bound": bound, "nrefs": P.get("fallback_nrefs", 4),
              "nstrs": P.get("fallback_nstrs", 4), "timeout_ms": 60000, "second_solver": False}
-        from pyvc.runner import run_unit
-        return run_unit(u)
+        # always in a fresh process: one z3 context per engine
+        with mp.Pool(1, maxtasksperchild=1) as fpool:
+            return fpool.apply(_work, (u,))
 
     fallback_cache = {}
     proof_lost = []
